@@ -99,7 +99,7 @@ def _ops():
         ('bin_bare', dict(src=('C', 'brackets'), argv=['transform', '{src}', '{dest}', '--src-format', 'brackets', '--dest-format', 'brackets',
                                                        '--trans', 'mark_heads_by_rules', 'binarize', '--params', 'mark_heads_preset:negra',
                                                        'bare_bin_labels'])),
-        ('heads_ptb', dict(src=('B', 'brackets'), argv=['transform', '{src}', '{dest}', '--src-format', 'brackets', '--dest-format', 'brackets',
+        ('heads_ptb', dict(src=('C', 'brackets'), argv=['transform', '{src}', '{dest}', '--src-format', 'brackets', '--dest-format', 'brackets',
                                                         '--trans', 'mark_heads_by_rules', 'binarize', '--params', 'mark_heads_preset:ptb',
                                                         '--dest-opts', 'mark_heads_marking'])),
         ('gram_treebank_pmcfg', dict(src=('E', 'export'), grammar=True, argv=['grammar', '{src}', '{dest}', 'treebank'])),
